@@ -108,8 +108,10 @@ def c2init_part(ctx, keys, other):
                 md.magic, md.bid, md.aes_rand = 0xBEEF, 4242, rng.randbytes(16)
                 md.size = len(md.dumps()) - 8
                 req = h.transform_get.transform(c2.C2Data(metadata=c2.encrypt_metadata(md, key.publickey())), request=c2.HttpRequest(method=b"GET", uri=b"/get", params={}, headers={}, body=b""))
-                ci = core.outcome(lambda: [type(p).__name__ for p in h.iter_recover_http(req)])
                 mdg = hashlib.sha256(bytes(md.aes_rand)).digest()
+                # (every other class: the caller hands its own, complete keys to this one call - what the decoder keeps for the session is the same)
+                call_kw = {"keys": c2.BeaconKeys(aes_key=mdg[:16], hmac_key=mdg[16:])} if n % 2 else {}
+                ci = core.outcome(lambda: [type(p).__name__ for p in h.iter_recover_http(req, **call_kw)])
                 sym = {"md_aes": mdg[:16], "md_hmac": mdg[16:], "derived_aes": want_aes, "derived_hmac": want_hmac, "none": None}
                 exp_after = tuple(sym.get(x, kw["aes_key"] if i == 0 else kw["hmac_key"]) for i, x in enumerate(res["after"]))
                 if ci[0] != "ok" or (res["rsa"] and ci[1] != ["BeaconMetadata"]) or (h.beacon_keys.aes_key, h.beacon_keys.hmac_key) != exp_after:
